@@ -200,7 +200,8 @@ fn s15_one<T: Real>(kind: Kind, n: usize, dir: FftDirection, rng: &mut Rng, rep:
     let adv = fft.get_immutable_scratch_len();
     // (chunks, output delta, scratch delta): well-shaped and ill-shaped calls
     let k = 1 + rng.below(8) as usize;
-    let shapes: [(usize, isize, isize, isize); 6] = [(k, 0, 0, 0), (1, 0, 0, 0), (k, 1, 0, 0), (k, 0, 1, 0), (k, 0, 0, -1), (2, 0, -(n as isize), 0)];
+    // the last shape: an EMPTY scratch (ill-shaped whenever the advertised length is positive)
+    let shapes: [(usize, isize, isize, isize); 7] = [(k, 0, 0, 0), (1, 0, 0, 0), (k, 1, 0, 0), (k, 0, 1, 0), (k, 0, 0, -1), (2, 0, -(n as isize), 0), (k, 0, 0, -(adv as isize))];
     for (chunks, dlen, olen_d, s_d) in shapes {
         let ilen = (n * chunks) as isize + dlen;
         let olen = ilen + olen_d;
